@@ -637,7 +637,9 @@ def set_rate(repo):
 def c17_static(repo):
     a, wa = pop_taylor(repo)
     b, wb = set_rate(repo)
-    return a + b, wa + wb
+    import translate_c17
+    c, wc = translate_c17.extra(repo)     # glue: get_PropagationMatrix, sub-axis logic, constructors (harness/translate_c17.py)
+    return a + b + c, wa + wb + wc
 
 
 # ----------------------------------------------------------------------------------------------- C08
